@@ -50,7 +50,10 @@ func (c *checkSchema) checkType(name string, typ ischema.Type, ss map[string]isc
 		if jErr, ok := r.(kit.JSchemaError); ok {
 			jErr.SetFile(typ.RootFile)
 			jErr.SetIndex(bytes.Index(jErr.Index()) + typ.Begin)
-			jErr.SetIncorrectUserType(name)
+			if len(name) == 0 || name[0] != '#' {
+				// The internal name of an unnamed (`or` rule-set) type is a heap address.
+				jErr.SetIncorrectUserType(name)
+			}
 			panic(jErr)
 		}
 
